@@ -190,6 +190,18 @@ func genC18() *rapid.Generator[c18Case] {
 			c.Method = rapid.SampledFrom([]string{"GET /v1/ip", "GET /v1/ip", "POST /v1/ip", "POST /v1/pool", "GET /v1/pool/", "DELETE /v1/pool/"}).Draw(t, "method")
 			c.Query = genText(t, "query", []string{"keyword=s0", "appName=s0&namespace=ns0&appType=statefulset", "page=1&size=2&sort=ip+desc", "size=-1&page=99999999999",
 				"poolName=p0&appType=", "sort=podname%20desc", "appType=NULL", "p0", "x/y", "%zz"})
+			if rapid.IntRange(0, 3).Draw(t, "numericQuery") == 0 {
+				// paging parameters at the boundaries of the integer types (products and sums that wrap)
+				nums := []string{"0", "1", "-1", "99999", "100000", "2147483647", "2147483648", "4294967295", "4611686018427387904", "9223372036854775806",
+					"9223372036854775807", "-9223372036854775808", "18446744073709551615", "1e3", ""}
+				c.Query = "page=" + rapid.SampledFrom(nums).Draw(t, "pageNum")
+				if rapid.Bool().Draw(t, "withSize") {
+					c.Query += "&size=" + rapid.SampledFrom(nums).Draw(t, "sizeNum")
+				}
+				if rapid.IntRange(0, 2).Draw(t, "withSort") == 0 {
+					c.Query += "&sort=" + rapid.SampledFrom([]string{"ip", "ip+desc", "podname", "policy+desc", "namespace+asc"}).Draw(t, "sortQ")
+				}
+			}
 			c.Text = genText(t, "body", []string{`{"ips":[{"ip":"10.0.70.2","namespace":"ns0","appName":"s0","podName":"s0-0","appType":"statefulset"}]}`,
 				`{"ips":[{"ip":"10.0.70"}]}`, `{"ips":null}`, `{"name":"p0","size":2,"preAllocateIP":true}`, `{"name":"p0","size":-5}`, `{"name":"","size":1}`,
 				`{"name":"p0","size":99999999}`, `{"ips":[{"ip":"10.0.70.2","appType":"NULL"}]}`})
